@@ -468,6 +468,74 @@ def x86ni_cbcdec_iv(chk):
     chk.floor('cbcdec tail shapes', n, 7)
 
 
+def poly1305_ctmulq_final_carries(chk):
+    """Poly1305 ctmulq keeps the accumulator in limbs of 44, 44 and 42 bits.  Before the tag is assembled (v1 = acc[0] >> 32 | acc[1] << 12
+    ...) every limb must be back inside its width, otherwise the OR-composition mixes bits of neighbouring limbs.  The finalisation
+    is a fixed sequence of carry steps, including the 2^130 = 5 wrap into limb 0, which can itself push limb 0 over 2^44 again:
+    whether the sequence is long enough is a question about ranges *correlated through the carries*.  Decided by a trace-partitioned
+    interval analysis (sa/carryai.py): entry bounds are derived by the same analysis from the last statements of the two block
+    functions, the partitions are split on each carry value, and at the end all limbs must fit in every partition."""
+    from .. import carryai
+    R = 'poly1305-ctmulq-limbs-normalised'
+    src = 'src/symcipher/poly1305_ctmulq.c'
+    u = build.load_unit(src)
+    Fs = {f['name']: irf.Func(u, f) for f in u['functions'] if f.get('blocks')}
+    for nm in ('br_poly1305_ctmulq_run', 'poly1305_inner_small', 'poly1305_inner_big'):
+        if nm not in Fs:
+            raise AnalysisBroken('%s vanished from %s' % (nm, src))
+    # entry bounds: what the block functions store back into acc[]
+    init = {}
+    for nm in ('poly1305_inner_small', 'poly1305_inner_big'):
+        G = Fs[nm]
+        rb = [b for b in G.blocks if b['insts'][-1]['op'] == 'ret']
+        ins = []
+        for b in rb:
+            ins += b['insts']
+        # values stored come from loop-carried phis; bound each by the expression assigned at the end of the loop body
+        body = [i for b in G.blocks for i in b['insts']]
+        # the stores in the return block store phis: take the bound of the phi's loop-latch operand evaluated in the body run
+        env_bounds = {}
+        r2 = carryai.run_env(G, body)
+        for i in ins:
+            if i['op'] == 'store':
+                b_, off = G.addr_of(i['ops'][1])
+                if b_ == {'k': 'a', 'v': 0} and off is not None and i['ops'][0]['k'] == 'i':
+                    ph = G.insts[i['ops'][0]['v']]
+                    cands = [ph] if ph['op'] != 'phi' else [G.insts[o['v']] for o in ph['ops'] if o['k'] == 'i']
+                    hi = 0
+                    for c in cands:
+                        # incoming from the function entry: the previous accumulator (same invariant); from the loop: computed value
+                        if c['op'] == 'load':
+                            continue
+                        hi = max(hi, r2.get(c['id'], carryai.FULL)[1])
+                    init[off] = (0, max(init.get(off, (0, 0))[1], hi))
+    if sorted(init) != [0, 8, 16] or any(v[1] >= 1 << 63 for v in init.values()):
+        raise AnalysisBroken('%s: bounds of the accumulator limbs left by the block functions not derived (%s)' % (src, init))
+    F = Fs['br_poly1305_ctmulq_run']
+    calls = [c for c in F.calls() if c.get('callee') == 'poly1305_inner']
+    acc = next((d['v'] for d in F.f.get('declares', []) if d['var'] == 'acc'), None)
+    if not calls or acc is None:
+        raise AnalysisBroken('%s: accumulator / block processing calls not identified' % src)
+    last = max(calls, key=lambda c: F.order[c['id']])
+    blk = next(x for x in F.blocks if x['id'] == F.block_of[last['id']])
+    ins = [i for i in blk['insts'] if F.order[i['id']] > F.order[last['id']]]
+    stores = [i for i in ins if i['op'] == 'store' and F.addr_of(i['ops'][1])[0] == {'k': 'i', 'v': acc}]
+    if not stores:
+        raise AnalysisBroken('%s: no finalisation stores to acc[]' % src)
+    ins = [i for i in ins if F.order[i['id']] <= F.order[stores[-1]['id']]]
+    res = carryai.run(F, ins, {'k': 'i', 'v': acc}, init)
+    widths = {0: 44, 8: 44, 16: 42}
+    worst = {off: max(m[off][1] for m in res) for off in widths}
+    inst = 'br_poly1305_ctmulq_run: after the final carry steps the limbs fit 44 / 44 / 42 bits (entry bounds %s, %d partitions)' % (
+        ', '.join('2^%.1f' % __import__('math').log2(init[o][1] + 1) for o in (0, 8, 16)), len(res))
+    bad = [off for off, w in widths.items() if worst[off] >= 1 << w]
+    if not bad:
+        chk.ok(R, inst, F.where(stores[-1]))
+    else:
+        chk.violation(R, inst, F.where(stores[-1]), 'limb %d can be as large as %#x (width %d bits): the carry sequence is too short, the tag is wrong when a wrap-around '
+                      'pushes the low limb over its width' % (bad[0] // 8, worst[bad[0]], widths[bad[0]]), key=R)
+
+
 def run(tier):
     chk = report.Check('C12', tier,
                        'Constant tables of the symmetric primitives compared with values generated from their standards (FIPS 197 S-box, inverse '
@@ -575,6 +643,7 @@ def run(tier):
     ctr_counter_advance(chk)
     poly1305_wrap(chk)
     poly1305_block_decoding(chk)
+    poly1305_ctmulq_final_carries(chk)
     des_ede_schedule(chk)
     ghash_pclmul_tail(chk)
     empty_chunk_is_identity(chk)
